@@ -521,6 +521,10 @@ func TestFormatD(t *testing.T) {
 		Expect: `"  abc"`,
 	}).Test(t)
 	(&sliptest.Function{
+		Source: `(let ((*print-base* 16) (*print-radix* t)) (format nil "~D ~A" '(255) '(255)))`,
+		Expect: `"(255) (#xff)"`,
+	}).Test(t)
+	(&sliptest.Function{
 		Source: `(format nil "~:D" 123456789012345678901234567890)`,
 		Expect: `"123,456,789,012,345,678,901,234,567,890"`,
 	}).Test(t)
